@@ -757,6 +757,8 @@ func (x *exec) next(st *State, ins *ssa.Next) {
 	q := Term{"k!q", SInt}
 	st.assume(Implies(Not(ok), Forall([]Term{q}, Implies(Select(has, q), Select(it.Visited, q)))))
 	v, _ := x.mapLookup(st, it.MapT, it.Map, k)
+	x.useSetLib()
+	st.assume(Le(app(SInt, "card", it.Visited), BigLit(p2(48)))) // physical bound on iterations
 	nit := &MapIterV{Map: it.Map, MapT: it.MapT, Visited: Ite(ok, Store(it.Visited, k, True), it.Visited)}
 	x.setCell(st, p.Cell.ID, nit)
 	fr.env[ins] = TupleV{ok, k, v}
